@@ -394,7 +394,7 @@ PROBES = {
             'getitem_advanced_index', 'setitem_advanced_index', 'scalar_indexed_store_region_uniform', 'exported_snapshot',
             'iterated_list', 'iterated_for', 'iterated_next', 'iterated_siblings_kept', 'resize_dtype_with_sizes_rejected'],
     'C02': ['sat_store_checked', 'sat_store_beyond_2_64', 'view_created', 'register_write',
-            'fault_F3_fired', 'fault_F4_fired', 'iterated_siblings_kept', 'resize_dtype_with_sizes_rejected'],
+            'fault_F3_fired', 'fault_F4_fired', 'fault_F10_fired', 'iterated_siblings_kept', 'resize_dtype_with_sizes_rejected'],
     'C04': ['c04_write_judged', 'c04_callback_set_judged', 'c04_write_beyond_input_domain_judged', 'c04_arith_value_not_exact_not_judged', 'failed_write_dest_kept', 'probe_ovf_and_udf_in_one_write',
             'probe_flag_raising_write', 'probe_inaccuracy_propagated', 'probe_reset_of_raised_flag',
             'register_write', 'fault_F3_fired', 'fault_F4_fired', 'fault_F8_fired', 'c04_selfwrite_judged',
